@@ -651,6 +651,3 @@ def bytes_reader(vc):
     vc.cover("reader")
 
 
-from pyvc.harness import reuse as _reuse_c05  # noqa: E402
-_reuse_c05("C05/BytesReader", "C04/BytesReader.short-read=>error(never-a-short-result)")
-_reuse_c05("C05/BytesReader", "C14/BytesReader.refusals-are-the-owner's-format-error")
